@@ -276,6 +276,16 @@ def oracle_C10(tier):
             tmpl = in_context(ctx, 'pre \\k{v} %@@' + eol + ('post \\k{w}' if eol else ''))
             for p in payloads:
                 cases.append((tmpl, p, ctx[2], eol))
+            # what follows the line break must not matter either: a group, a
+            # bracket, a closing brace, blanks (the places where a spacer token
+            # would otherwise be read on)
+            if eol:
+                for before, after in (('pre \\k{v} ', '{w} post'), ('pre \\k ', '[o]{w} post'),
+                                      ('pre {x ', '} post'), ('pre \\k{v}\t', ' {w} post'),
+                                      ('pre \\k{v}', '\n{w} post')):
+                    tmpl3 = in_context(ctx, before + '%@@' + eol + after)
+                    for p in payloads[:12] + payloads[-6:]:
+                        cases.append((tmpl3, p, ctx[2], eol))
             # the comment directly after every kind of preceding token
             for before in ('pre \\%', 'pre \\&', 'pre \\k', 'pre \\k{v}', 'pre x', 'pre \\\\',
                            'pre \\k[o]', 'pre %c\n'):
